@@ -187,7 +187,16 @@ let process_history (hdr : line) (blocks : block list) (verbose : int) (do_full 
              else begin
                let mg = match margin with Some f -> f () | None -> q_of_ints 1000 1 in
                if qlt_bool mg margin_min then (r.ill <- r.ill + 1; bump "steps_ill_conditioned")
-               else r.mism <- (idx, Printf.sprintf "%s step: model/impl differ: %s" opk (diff_string d), float_of_q mg) :: r.mism
+               else begin
+                 let detail = String.concat " " (List.filter_map (fun ((c, a), b') ->
+                   if int_of_z c = 8 then
+                     let y = nat_of_int (int_of_z a) and x = nat_of_int (int_of_z b') in
+                     Some (Printf.sprintf "[model=%s impl=%s]"
+                             (String.concat "," (List.map (fun k -> string_of_int (int_of_nat k)) (get_cell m.g_cells y x)))
+                             (String.concat "," (List.map (fun k -> string_of_int (int_of_nat k)) (get_cell cur.g_cells y x))))
+                   else None) d) in
+                 r.mism <- (idx, Printf.sprintf "%s step: model/impl differ: %s %s" opk (diff_string d) detail, float_of_q mg) :: r.mism
+               end
              end
          | _ -> ());
         (* ---- full-run model (diagnostic) *)
